@@ -95,6 +95,21 @@ def gen_actor(st, idx, small):
         w = {"role": "writer", "cls": "VbsWriter", "blocked": kn.random() < 0.5, "records": recs}
         rcls = "VbsReader"
     if role == "writer":
+        if w["cls"] == "IpmWriter" and kn.random() < 0.3:
+            # one item the encoder must refuse (a value that cannot be converted for its typed field):
+            # the error belongs to this writer only and must not leak into any other instance
+            cfgd = msgcodec.effective_cfg(w["config"])
+            typed = sorted(int(b) for b, c in cfgd.items() if c.get("field_python_type") in ("int", "long", "datetime")
+                           and c["field_type"] == "FIXED" and 2 <= int(b) <= 127)
+            if typed:
+                bad = kn.choice(typed)
+                lower = sorted(int(b) for b, c in cfgd.items() if 2 <= int(b) < bad and c["field_type"] == "FIXED"
+                               and not c.get("field_python_type") and not c.get("field_processor"))
+                poison = {"MTI": "1644", f"DE{bad}": "not-a-number"}
+                for b in lower[:2]:
+                    poison[f"DE{b}"] = "Z" * cfgd[str(b)]["field_length"]   # fields encoded before the failure
+                w["messages"].insert(kn.randint(0, len(w["messages"])), poison)
+                w["poisoned"] = True
         return w
     spec = {"role": "reader", "cls": rcls, "blocked": w["blocked"], "encoding": w.get("encoding"),
             "config": w.get("config", "packaged"), "image_from": w}
@@ -172,16 +187,15 @@ def gen_multi(seed_i, mode, tier):
 
 def judge_multi(scn, log=None):
     try:
-        solo = multi.run_solo(scn)
+        solo, inter, stats = multi.run_pristine(scn)
     except multi.SoloWriterFailed as ex:
-        e = ex.args[0]
+        e = ex.args[0] if ex.args else ("?", "")
         return [{"oracle": "C06.control.writer_completes",
                  "detail": f"the writer raised {e} on a well-formed message list while preparing a reader's file",
                  "sig": f"C06.control.writer_completes|{e[0]}"}], {"switches": 0, "points": [], "trace": [], "steps": 0}
-    if scn["mode"] == "op":
-        inter, stats = multi.run_op_level(scn, log=log)
-    else:
-        inter, stats = multi.run_line_level(scn)
+    if log is not None:
+        for idx in stats.get("trace", []):
+            log.emit(f"actor{idx}", "step")
     fails = []
     for i, (a, b) in enumerate(zip(solo, inter)):
         role = a.spec["role"] + ":" + a.spec["cls"]
@@ -289,6 +303,8 @@ def run_task(task):
                 c["probe:run_with_a_reader_on_a_faulted_image"] += 1
             if scn.get("share_config"):
                 c["probe:run_with_instances_sharing_one_config_object"] += 1
+            if any(a.get("poisoned") for a in scn["actors"]):
+                c["probe:run_with_a_writer_refusing_one_item"] += 1
             if mode == "op":
                 key = sig64("op", tuple(stats["trace"]), tuple(a["role"] for a in scn["actors"]))
             else:
